@@ -144,6 +144,11 @@ func (w *c19Worker) dispatchProbe(trace []string) bool {
 	return true
 }
 
+// dispatchProbeAligned is dispatchProbe for a rotation that may stand anywhere after lost
+// dispatches: k requests must still reach each of the k members exactly once (any k consecutive
+// dispatches between two membership changes do).
+func (w *c19Worker) dispatchProbeAligned(trace []string) bool { return w.dispatchProbe(trace) }
+
 // attribution: an INVITE 200 with both tags sent from address x pins its dialog
 // iff x is recognised as a backend; three in-dialog requests show which it was.
 func (w *c19Worker) attributionProbe(x string, trace []string) bool {
